@@ -220,3 +220,12 @@ package server
 //@   property C18
 //@ property C18
 //@ fact ChannelRegex.MatchString("ssh->tcp:127.0.0.1:22")                                                     :documented_channel_flag_example_is_accepted
+
+// ---- C02: the session's shared receive budget is not lowered below the multiplexer's 4 MiB (protocol
+// version 1 has no per-stream window: a stalled logical connection can pin the whole budget and then
+// freezes every other logical connection of the session)
+//@ func (ch *ConnectionHandler) HandleConnection
+//@   property C02
+//@   safe
+//@   callsite smux.Server#1 (config *smux.Config) require config.MaxReceiveBuffer >= 4194304                    :shared_receive_budget_at_least_4MiB
+//@   callsite smux.Server#1 (config *smux.Config) require config.MaxFrameSize > 0 && config.MaxFrameSize <= 65535 && config.MaxFrameSize <= buffers.BufferSize      :frames_fit_the_copy_buffers
